@@ -30,10 +30,10 @@ func (b *c4b) tn() ts.Expr {
 	return ts.Call{Name: "tn", Args: []ts.Expr{ts.IntLit{V: b.n}}, Rets: []ts.Type{ts.TInt}}
 }
 
-func iv(n string) ts.Expr  { return ts.VarRef{Name: n, Ty: ts.TInt} }
-func il(v int64) ts.Expr   { return ts.IntLit{V: v} }
-func bl(v bool) ts.Expr    { return ts.BoolLit{V: v} }
-func sl(v string) ts.Expr  { return ts.StrLit{V: v} }
+func iv(n string) ts.Expr     { return ts.VarRef{Name: n, Ty: ts.TInt} }
+func il(v int64) ts.Expr      { return ts.IntLit{V: v} }
+func bl(v bool) ts.Expr       { return ts.BoolLit{V: v} }
+func sl(v string) ts.Expr     { return ts.StrLit{V: v} }
 func pr(e ...ts.Expr) ts.Stmt { return ts.Print{Args: e} }
 func short(n string, ty ts.Type, e ts.Expr) ts.Stmt {
 	return ts.VarDecl{Names: []string{n}, Ty: ty, Tys: []ts.Type{ty}, Vals: []ts.Expr{e}, Form: ts.DeclShort}
@@ -147,7 +147,7 @@ func c04TablePrograms() []c4prog {
 			c := func(i int) ts.Expr { return b.tb(bl(i == k)) }
 			return []ts.Stmt{ts.If{Cond: c(0), Then: []ts.Stmt{pr(sl("b0"), b.ti(il(0)))},
 				Elifs: []ts.ElseIf{{Cond: c(1), Body: []ts.Stmt{pr(sl("b1"), b.ti(il(1)))}}, {Cond: ts.Logic{Op: "||", L: c(2), R: b.tb(bl(false))}, Body: []ts.Stmt{pr(sl("b2"))}}},
-				Else: []ts.Stmt{pr(sl("else"), b.ti(il(9)))}, HasElse: true}, pr(sl("after"))}, nil
+				Else:  []ts.Stmt{pr(sl("else"), b.ti(il(9)))}, HasElse: true}, pr(sl("after"))}, nil
 		})
 	}
 	add("for-clauses", func(b *c4b) ([]ts.Stmt, []ts.Stmt) {
